@@ -24,6 +24,21 @@ const (
 )
 
 func init() {
+	mutant(&Mutant{Name: "c01-call-unparenthesised-in-new-callee", Property: "C01", File: "js/js.go",
+		Old: "if js.OpNew <= prec || isOptionalGroup(expr.X) {", New: "if js.OpMember <= prec || isOptionalGroup(expr.X) {",
+		Rule: "R01.40", Construct: "case *js.DotExpr/object level inside the callee of new"})
+	mutant(&Mutant{Name: "c01-conditional-branch-unwrapped-at-assignment-level", Property: "C01", File: "js/util.go",
+		Old: "(exprPrec(expr.X) < js.OpAssign || binaryRightPrecMap[js.AndToken] <= exprPrec(expr.X)) {", New: "(exprPrec(expr.X) <= js.OpAssign || binaryRightPrecMap[js.AndToken] <= exprPrec(expr.X)) {",
+		Rule: "R01.38", Construct: "expr.X goes unwrapped into js.AndToken"})
+	mutant(&Mutant{Name: "c01-space-decided-by-ascii-test", Property: "C01", File: "js/js.go",
+		Old: "if m.needsSpace && js.IsIdentifierContinue(b) || m.spaceBefore == b[0] {", New: "if m.needsSpace && ('a' <= b[0] && b[0] <= 'z' || js.IsIdentifierStart(b)) || m.spaceBefore == b[0] {",
+		Rule: "R01.39", Construct: "is decided by js.IsIdentifierContinue"})
+	mutant(&Mutant{Name: "c01-block-unwrapped-around-function", Property: "C01", File: "js/stmtlist.go",
+		Old: "} else if _, ok := blockStmt.List[0].(*js.FuncDecl); ok {", New: "} else if _, ok := blockStmt.List[0].(*js.FuncDecl); ok && false {",
+		Rule: "R01.35", Construct: "is not a function declaration"})
+	mutant(&Mutant{Name: "c01-export-default-leading-function", Property: "C01", File: "js/js.go",
+		Old: "if !isHoistable && !isClass && startsWithFuncOrClass(stmt.Decl) {", New: "if !isHoistable && !isClass && len(m.prev) == 0 {",
+		Rule: "R01.37", Construct: "is tested for a leading function or class"})
 	mutant(&Mutant{Name: "c01-string-key-becomes-any-number", Property: "C01", File: "js/js.go",
 		Old: "isNum && isCanonicalNumber(lit.Data[1:len(lit.Data)-1]) {", New: "isNum {",
 		Rule: "R01.30", Construct: "only for canonical numeric strings"})
@@ -100,6 +115,11 @@ func runC01(c *Ctx) {
 	c.r0132(pk)
 	c.r0133(pk)
 	c.alsoUnder(map[string]string{"R09.21": "R01.34"}, nil, func() { c.r0921(pk) })
+	c.r0135(pk)
+	c.r0138(pk)
+	c.r0139(pk)
+	c.r0140(pk)
+	c.alsoUnder(map[string]string{"R09.22": "R01.36", "R09.23": "R01.37"}, nil, func() { c.r0922(pk); c.r0923(pk) })
 }
 
 // R01.13: traversals of binding patterns reach every nested binding.
